@@ -40,3 +40,6 @@ import Gleece.Properties.C10Common
 #print axioms Gleece.Validate.commonValidate_go_sound
 #print axioms Gleece.Validate.commonValidate_sound
 #print axioms Gleece.Validate.commonValidate_accepts_iff
+#print axioms Gleece.Validate.goPath_values_nodup
+#print axioms Gleece.Validate.accepted_is_wellLinked_partial
+#print axioms Gleece.Validate.link_accepts_iff_partial
